@@ -361,7 +361,11 @@ func (doc *Document) Warnings() (warnings Warnings) {
 			context.Family = family
 		}
 
-		Filter(node, doc, func(node Node) (newNode Node, traverseChildren bool) {
+		// Visit every node. This must not use Filter because that copies the
+		// nodes into the document, which would add a new family for each
+		// husband, wife and child.
+		var visit func(node Node)
+		visit = func(node Node) {
 			if warner, ok := node.(Warner); ok {
 				for _, warning := range warner.Warnings() {
 					warning.SetContext(context)
@@ -369,8 +373,12 @@ func (doc *Document) Warnings() (warnings Warnings) {
 				}
 			}
 
-			return node, true
-		})
+			for _, child := range node.Nodes() {
+				visit(child)
+			}
+		}
+
+		visit(node)
 	}
 
 	return
